@@ -521,7 +521,99 @@ fn case(tape: &[u16]) -> Case {
     Case { stmts, inputs, mode, out_file, precreate, slow_stdin, no_final_newline }
 }
 
+/// Inputs that cannot be converted (a function input the language refuses, e.g. one whose parameter
+/// is named like a built-in): the run may be refused as an input error, but a document that is
+/// given must never be skipped silently - an earlier value of the key must not show through and the
+/// numbering of non-object values must not shift.
+#[derive(Clone, Debug, Serialize, Deserialize)]
+pub struct RefusedCase {
+    /// source of the function input
+    pub function: String,
+    /// 0: later key overrides earlier key, 1: numbering of non-object values, 2: later stdin-vs-flag override, 3: alone
+    pub scenario: u8,
+    pub mode: u8,
+}
+
+pub struct Refused;
+
+impl Check for Refused {
+    type Case = RefusedCase;
+    fn name(&self) -> &'static str {
+        "refused-input"
+    }
+    fn run(&self, c: &RefusedCase, ctx: &mut Ctx) -> Outcome {
+        ctx.label("refused-function-input");
+        ctx.nontrivial(hash_str(&format!("{:?}", c)));
+        let bad = format!("{{\"__blots_function\": {}}}", json::write(&MV::Str(c.function.clone()), 0));
+        // (stdin document, -i documents, script, forbidden value of `a` when the run exits 0)
+        let (stdin, flags, script, forbidden): (Option<String>, Vec<String>, &str, &str) = match c.scenario % 4 {
+            0 => (None, vec!["{\"f\": 1}".into(), format!("{{\"f\": {}}}", bad)], "output a = [inputs.f == 1, #f == 1]", "[true,true]"),
+            1 => (None, vec![format!("[{}]", bad), "7".into()], "output a = [#value_1 == 7, inputs.value_2 == null]", "[true,true]"),
+            2 => (Some("{\"f\": \"early\", \"g\": 2}".into()), vec![format!("{{\"f\": {}, \"h\": 3}}", bad)], "output a = [inputs.f == \"early\", #h == null]", "[true,true]"),
+            _ => (None, vec![format!("{{\"f\": {}, \"k\": 1}}", bad)], "output a = keys(inputs) .== [\"k\"]", "true"),
+        };
+        let dir = crate::engine::proc::scratch_dir("c19r");
+        let mut args: Vec<String> = Vec::new();
+        for f in &flags {
+            args.push("-i".into());
+            args.push(f.clone());
+        }
+        if c.mode % 2 == 0 {
+            let p = format!("{}/s.blots", dir);
+            std::fs::write(&p, format!("{}\n", script)).unwrap();
+            args.push(p);
+        } else {
+            args.push(script.to_string());
+        }
+        let r = run_proc(&ctx.cli_path, &args, stdin.as_deref().map(|s| s.as_bytes()), None, &Limits::default());
+        let _ = std::fs::remove_dir_all(&dir);
+        let r = match r {
+            Ok(r) => r,
+            Err(e) => fail!("spawn", "{}", e),
+        };
+        if r.timed_out {
+            ctx.note("a CLI run timed out (inconclusive)");
+            return Ok(());
+        }
+        if r.signal.is_some() || r.code == Some(101) {
+            fail!("refused-input:crash", "the CLI ended with {} on inputs {:?} / {:?}", r.describe(), stdin, flags);
+        }
+        if r.code != Some(0) {
+            // refused as a whole: no outputs object
+            if json::parse(r.stdout.trim()).is_ok() && !r.stdout.trim().is_empty() {
+                fail!("refused-input:outputs-despite-failure", "exit {} but stdout holds {}", r.describe(), r.stdout.trim());
+            }
+            ctx.label("refused-input:reported");
+            return Ok(());
+        }
+        let compact: String = r.stdout.chars().filter(|ch| !ch.is_whitespace()).collect();
+        if compact == format!("{{\"a\":{}}}", forbidden) {
+            fail!(
+                format!("refused-input:silently-skipped:scenario{}", c.scenario % 4),
+                "a function input the language refuses ({}) was skipped silently: the run exits 0 and behaves as if the document (or key) had not been given - an earlier value shows through / the numbering shifts\n--- stdin: {:?}\n--- -i: {:?}\n--- script: {}\n--- stdout: {}",
+                c.function,
+                stdin,
+                flags,
+                script,
+                r.stdout.trim()
+            );
+        }
+        Ok(())
+    }
+}
+
 pub fn run(ctx: &mut Ctx) {
+    // function inputs the language refuses (parameters named like built-ins / constants) and, for
+    // comparison, ones it accepts or keeps as records
+    let mut refused = Vec::new();
+    for function in ["(sum) => sum", "(inf) => 1", "(constants) => 1", "(x, max?) => x", "(...len) => 1", "x => (infinity) => x", "(x) => x", "((", "// only a comment", "(a, a) => a"] {
+        for scenario in 0..4u8 {
+            for mode in 0..2u8 {
+                refused.push(RefusedCase { function: function.to_string(), scenario, mode });
+            }
+        }
+    }
+    ctx.run_enum(&Refused, refused.into_iter(), false);
     // fixed documented scenarios
     let obj = |pairs: Vec<(&str, MV)>| MV::Rec(pairs.into_iter().map(|(k, v)| (k.to_string(), v)).collect());
     let inp = |stdin: bool, v: MV| Input { stdin, text: json::write(&v, 0), valid: Some(v), bad_utf8: false };
